@@ -4,6 +4,7 @@ cd "$(dirname "$0")"
 pf=$(readlink -f "$1"); shift
 if ! git -C /repo diff --quiet; then echo "/repo is dirty"; exit 3; fi
 git -C /repo apply "$pf" || { echo "patch does not apply"; exit 3; }
+rm -f build/replay/*.json
 for p in "$@"; do
   ./check $p 2>&1 | grep -E "^(VIOLATION|INCONCLUSIVE|OK|KNOWN|failed obligation)" | cut -c1-260
   for f in build/replay/$p-*.json; do [ -f "$f" ] && python3 -c "
